@@ -92,6 +92,17 @@ def h_inverse_jacobian(w):
         d = [qpts[i][k] - bpts[i][k] for k in range(3)]
         n2 = sum((x * x for x in d), 0)
         w.prove_close([J2[i, k] * J2[i, k] * n2 for k in range(3, 6)], [x * x for x in d], TOL, 'query pose row %d: direction part (squared)' % i)
+    # query with BOTH plates given explicitly (a base different from the one the platform stands on)
+    nb, Tn = P.sym_pose(w, 'N')
+    J3 = sp.inverseJacobian(top_plate_pos=tm(qt), bottom_plate_pos=tm(nb))
+    nbpts = P.joint_points(w, Tn, g['bj'])
+    for i in range(6):
+        d = [qpts[i][k] - nbpts[i][k] for k in range(3)]
+        n2 = sum((x * x for x in d), 0)
+        w.prove_close([J3[i, k] * J3[i, k] * n2 for k in range(3, 6)], [x * x for x in d], TOL, 'explicit base: row %d direction part (squared)' % i)
+        w.prove_close([J3[i, k] for k in range(3)], H.cross(nbpts[i], [J3[i, 3], J3[i, 4], J3[i, 5]]), TOL,
+                      'explicit base: row %d moment part = (bottom joint of the REQUESTED base) x direction' % i)
+    w.prove_close(sp.getBottomT().gTM(), Tb, TOL, 'Jacobian query with an explicit base restores the bottom pose')
     w.prove_close(sp.getTopT().gTM(), Tt, TOL, 'Jacobian query at another pose restores the top pose')
     w.prove_close(sp.getLens().reshape(-1), lens, TOL, 'Jacobian query at another pose restores the leg lengths')
     w.prove_close(sp.getTopJoints(), w.array(tpts).T, TOL, 'Jacobian query at another pose restores the top joints')
@@ -237,6 +248,14 @@ def h_concrete(w):
     D2 = (L(h / 2) - L(-h / 2)) / h
     rich = (4 * D2 - D1) / 3
     w.prove_close(J @ V, rich, 1e-6, 'leg rates = inverse Jacobian * twist (Richardson differences of the leg lengths)')
+    # the same matrix must come back when the poses are passed explicitly from another stance
+    if w.real('explicit', 0, 1) > 0.5:
+        other = tm([w.real('ex', -2, 2), w.real('ey', -2, 2), w.real('ez', -1, 1), w.real('ea', -1, 1), w.real('eb', -1, 1), w.real('ec', -1, 1)])
+        sp.move(other)
+        Jx = sp.inverseJacobian(top_plate_pos=tm(top0.copy()), bottom_plate_pos=tm(bot0.copy()))
+        w.prove_close(Jx, J, 1e-8 * max(1.0, float(np.linalg.norm(J))), 'inverseJacobian(top, bottom) given explicitly from another stance = the matrix at that stance')
+        w.prove_close(sp.getBottomT().gTM(), other.gTM(), 1e-9, 'explicit-pose Jacobian query restores the base')
+        sp.IK(tm(top0.copy()), tm(bot0.copy()))
     Wv = np.array([w.real('W%d' % i, -5, 5) for i in range(6)])
     Wn = max(1.0, float(np.linalg.norm(Wv)))
     tau = sp.staticForces(Wrench(Wv.reshape((6, 1)).copy())).reshape(-1)
